@@ -715,7 +715,7 @@ struct Engine
                 // relocation into the new block goes through the move constructor of types that are not trivially copyable
                 size_t ctm = 0;
                 for (auto& e : m.e) ctm += objects_of_type(Cfg::fields(), e.f, "Ctm8");
-                if (CopyTrivMove8::move_constructions - ctm_before != ctm)
+                if (CopyTrivMove8::move_constructions - ctm_before < ctm)  // fewer: some objects were relocated as bytes
                     viol("C06", "relocation_bypasses_move_constructor", fmt("reserve relocated %zu objects of a type with trivial copy / user-provided move constructor, its move constructor ran %" PRIu64 " times", ctm, CopyTrivMove8::move_constructions - ctm_before));
             }
             check_footprint(i, a.snap[i].valid ? footprint_before[i] : 0, 0, "reserve");
@@ -943,7 +943,7 @@ struct Engine
                 {
                     size_t ctm = 0;
                     for (auto& e : sm.e) ctm += objects_of_type(Cfg::fields(), e.f, "Ctm8");
-                    if (CopyTrivMove8::move_constructions - ctm_before != ctm)
+                    if (CopyTrivMove8::move_constructions - ctm_before < ctm)
                         viol("C08,C06", "relocation_bypasses_move_constructor", fmt("move assignment between unequal non-propagating allocators ran the move constructor of %" PRIu64 " objects of a type with trivial copy / user-provided move, the source held %zu", CopyTrivMove8::move_constructions - ctm_before, ctm));
                 }
                 if (Cfg::HAS_TRACKED && registry().move_constructed - moves_before != objs)
